@@ -2,20 +2,20 @@ package protocol
 
 // extra bytes beyond the minimum message length explored by the totality harnesses (quick tier)
 const (
-	c05XFrame = 3
+	c05XFrame     = 3
 	c05XPeerHello = 4
-	c05XOpen = 4
-	c05XAck = 17
-	c05XErr = 3
-	c05XAdv = 6
-	c05XWd = 8
-	c05XEnc = 18
-	c05XNodeInfo = 1
-	c05XNIA = 1
-	c05XCtl = 4
-	c05XDgram = 8
-	c05XIcmpOpen = 4
-	c05XIcmpEcho = 6
-	c05XSleep = 17
-	c05XQueued = 6
+	c05XOpen      = 4
+	c05XAck       = 17
+	c05XErr       = 3
+	c05XAdv       = 6
+	c05XWd        = 8
+	c05XEnc       = 18
+	c05XNodeInfo  = 1
+	c05XNIA       = 1
+	c05XCtl       = 4
+	c05XDgram     = 8
+	c05XIcmpOpen  = 4
+	c05XIcmpEcho  = 6
+	c05XSleep     = 17
+	c05XQueued    = 6
 )
